@@ -270,8 +270,17 @@ fn process_run(prop: &str, seed: u64, idx: u64, variant: u64, run_seed: u64, scn
     (r.out.fp, r.out.stats.steps)
 }
 
+thread_local! {
+    /// source location of the last panic on this thread (set by the panic hook): tells a panic
+    /// inside the library from a panic inside the harness
+    pub static LAST_PANIC_LOC: std::cell::RefCell<String> = const { std::cell::RefCell::new(String::new()) };
+}
+
 fn main() {
-    std::panic::set_hook(Box::new(|_| {}));
+    std::panic::set_hook(Box::new(|info| {
+        let loc = info.location().map(|l| l.file().to_string()).unwrap_or_default();
+        LAST_PANIC_LOC.with(|l| *l.borrow_mut() = loc);
+    }));
     let args: Vec<String> = std::env::args().collect();
     let get = |k: &str| -> Option<String> { args.iter().position(|a| a == k).and_then(|i| args.get(i + 1).cloned()) };
     match args.get(1).map(|s| s.as_str()) {
